@@ -248,3 +248,41 @@ def atom_function(name, timeout_ms=None, vc_slice=None):
     rep.functions[name]["hash"] = ix.func(name).source_hash()
     rep.functions[name]["mode"] = "verified against its contract"
     return rep
+
+
+# ---------------------------------------------------------------- C10
+MEMO_WHITELIST = {
+    # lazy cache of MarkerExpression: only read through `specifier`, which fills it from _get_specifier() (a function of the compared
+    # fields); from_specifier installs it with the specifier the atom was rendered from (C11 obligation)
+    "dep_logic.markers.single:_merge_single_markers": {"MarkerExpression._specifier"},
+}
+
+
+def memo_frame(timeout_ms=None):
+    from pyvc import extract, verify
+    from pyvc.frame import ReadSets
+    ix = extract.Index()
+    rs = ReadSets(ix)
+    rep = verify.Report()
+    for f in rs.memoised():
+        q = f.qualname
+        rep.functions[q] = {"hash": f.source_hash(), "mode": "frame (read-set) analysis of a memoised function", "paths": 0, "cases": 1}
+        reads, ptypes = rs.param_reads(f)
+        extra = sorted(reads - MEMO_WHITELIST.get(q, set()))
+        rep.functions[q]["parameter_types"] = ptypes
+        rep.functions[q]["uncompared_state_read_through_key"] = sorted(reads)
+        rep.add(f"{q}#C10.frame.key-respect", "unsat" if not extra else "sat", 0.0, "ast-frame",
+                model={"reads_uncompared_state_through_its_key": extra, "parameter_types": ptypes} if extra else None)
+        # a returned parameter carries its uncompared fields into the cached result: those the observers read must be compared
+        esc = rs.escaping_params(f)
+        obs = set()
+        for pn in esc:
+            obs |= rs.observable_uncompared(ptypes.get(pn, []))
+        rep.functions[q]["returned_parameters"] = sorted(esc)
+        rep.add(f"{q}#C10.frame.returned-key-objects-observably-equal", "unsat" if not obs else "sat", 0.0, "ast-frame",
+                model={"returned_parameters": sorted(esc), "uncompared_fields_read_by_str_or_evaluate": sorted(obs)} if obs else None)
+        # determinism: no reads of module-level mutable state other than other memoised functions / constants
+        glob = sorted({n.id for n in __import__("ast").walk(f.node) if isinstance(n, __import__("ast").Global)})
+        rep.add(f"{q}#C10.frame.no-global-writes", "unsat" if not glob else "sat", 0.0, "ast-frame", model={"global": glob} if glob else None)
+    rep.functions["frame:uncompared-fields"] = {"hash": None, "mode": "dataclass fields excluded from ==/hash", "paths": 0, "cases": len(rs.unc), "fields": rs.unc}
+    return rep
